@@ -53,6 +53,8 @@ type l1Up struct {
 	Abort bool `json:"abort,omitempty"`
 	// BadTrack: an init upload for a track whose directory cannot be created (a name of 300 bytes)
 	BadTrack bool `json:"badtrack,omitempty"`
+	// Salt varies the sample payload of a built segment (a re-encoded retry of the same number)
+	Salt int `json:"salt,omitempty"`
 }
 
 type l1ErrReader struct{}
@@ -233,7 +235,7 @@ func l1Build(t c17track, u l1Up) ([]byte, error) {
 			frag.AddFullSample(mp4.FullSample{
 				Sample:     mp4.Sample{Flags: mp4.SyncSampleFlags, Dur: uint32(sd), Size: 4},
 				DecodeTime: tm,
-				Data:       []byte{0, 0, byte(k), byte(i)},
+				Data:       []byte{byte(u.Salt), byte(u.Salt >> 8), byte(k), byte(i)},
 			})
 			tm += uint64(sd)
 		}
@@ -872,6 +874,34 @@ func l1Generate(c *lib.Ctx, rng *rand.Rand) []l1Scenario {
 			}
 			for t := range keys {
 				sc.Ups = append(sc.Ups, l1Up{Track: t, Seq: m})
+			}
+		}
+		scs = append(scs, sc)
+	}
+	// numbers that are uploaded again with other content (an encoder that restarts, a re-encoded retry): shorter, longer,
+	// of equal length with other bytes; same time and duration. HEAD answers 200, replaces the file and keeps the
+	// first upload's entry in the track's buffer: the stored file must be the last accepted upload
+	for k := 0; k < 3*mult; k++ {
+		keys := [][]string{{"v500", "a128"}, {"v500", "v800"}, {"v500"}}[k%3]
+		sc := l1Scenario{Kind: 4, Tracks: tracksOf(keys...), Tsbd: 60, Gen: "reupload-other-content"}
+		const D = 36000
+		for i := range keys {
+			sc.Ups = append(sc.Ups, l1Up{Init: true, Track: i})
+		}
+		first := int64(10 + rng.Intn(90))
+		lay := func(v int) (int, int64) { // same duration, different size
+			return []int{50, 20, 100, 60}[v%4], []int64{720, 1800, 360, 600}[v%4]
+		}
+		for m := int64(0); m < 8; m++ {
+			for t := range keys {
+				ns, sd := lay(int(m) + t)
+				sc.Ups = append(sc.Ups, l1Up{Track: t, Seq: first + m, T: (first + m) * D, Frags: 1 + int(m)%2, NS: ns / (1 + int(m)%2), SD: sd, Lay: "trun"})
+				if m >= 1 && rng.Intn(2) == 0 {
+					back := first + m - int64(rng.Intn(int(m)+1)) // this number or an earlier one again
+					v := rng.Intn(4)
+					ns2, sd2 := lay(v)
+					sc.Ups = append(sc.Ups, l1Up{Track: t, Seq: back, T: back * D, Frags: 1, NS: ns2, SD: sd2, Lay: "trun", Salt: 1 + rng.Intn(60000)})
+				}
 			}
 		}
 		scs = append(scs, sc)
